@@ -38,6 +38,9 @@ type world struct {
 	draws   int
 	lastN   int
 	lastKey int
+	// consumeNotes: every node answers MouseEnter / MouseLeave / FocusIn / FocusOut with
+	// ConsumeEventCmd (as vxfw/button does): a consume outside a dispatch must not leak into the next event
+	consumeNotes bool
 }
 
 type setFocus struct{ target string }
@@ -119,6 +122,12 @@ func (n *node) handle(ev vaxis.Event, phase string) (vxfw.Command, error) {
 	if m, ok := ev.(marked); ok {
 		if cmd, ok := n.wd.cmdOn[n.spec.name+":"+m.id]; ok {
 			return cmd, nil
+		}
+	}
+	if n.wd.consumeNotes {
+		switch ev.(type) {
+		case vxfw.MouseEnter, vxfw.MouseLeave, vaxis.FocusIn, vaxis.FocusOut:
+			return vxfw.BatchCmd{vxfw.RedrawCmd{}, vxfw.ConsumeEventCmd{}}, nil
 		}
 	}
 	if _, ok := ev.(marked); !ok && n.wd.consume[n.spec.name] == phase {
@@ -547,6 +556,60 @@ func hoverSweep(idx, n int) {
 	}
 }
 
+// notificationSweep: widgets that consume hover / focus notifications (delivered outside the three
+// phases). Whatever notification came before, the next key, custom event or press is routed in full.
+func notificationSweep(idx, n int) {
+	k := 0
+	for _, t := range trees() {
+		if t.overlap {
+			continue
+		}
+		ns := names(t.root)
+		for mask := 0; mask < 1<<len(ns); mask++ {
+			k++
+			if k%n != idx {
+				continue
+			}
+			caps := map[string]bool{}
+			for i, nm := range ns {
+				caps[nm] = mask>>i&1 == 1
+			}
+			wd, rig := startRig(t, caps)
+			wd.consumeNotes = true
+			// the notification-raising input and the probe key travel in one read: nothing (not even
+			// the harness's own sentinel key) is dispatched between them
+			pres := []struct{ name, bytes string }{
+				{"motion(0,0)", mouseBytes(0, 0, true)},
+				{"motion(2,1)", mouseBytes(2, 1, true)},
+				{"motion(5,0)", mouseBytes(5, 0, true)},
+				{"motion(1,0) motion(4,2)", mouseBytes(1, 0, true) + mouseBytes(4, 2, true)},
+				{"terminal focus out", "\x1b[O"},
+				{"terminal focus in", "\x1b[I"},
+			}
+			for _, f := range ns {
+				wd.focus(f)
+				chain := pathTo(t.root, f)
+				for _, p := range pres {
+					// start from a neutral hover state so that the step raises notifications again
+					rig.Inject(mouseBytes(5, 2, true))
+					wd.log = nil
+					rig.Inject(p.bytes + "x")
+					r.Count("notification_cases", 1)
+					got := filterRouting(wd.log, "key")
+					want, opt := route(chain, caps, map[string]string{}, "key")
+					if !matches(got, want, opt) {
+						r.Violation("C15|routing-after-notification|key", mask, detail{Tree: t.name, Setup: fmt.Sprintf("capturers %v, focus %s, every widget consumes hover and focus notifications", caps, f), Event: p.name + " ; key x (same read)", Got: got, Want: want,
+							Why: "after a consumed notification the next event is not routed capture -> target -> bubble in full"})
+					} else {
+						r.Distinct(explore.Hash("note", t.name, fmt.Sprint(mask), f, p.name))
+					}
+				}
+			}
+			rig.Stop()
+		}
+	}
+}
+
 // focus changes and commands
 func commandSweep() {
 	for _, t := range trees() {
@@ -663,6 +726,8 @@ func main() {
 			routingSweep(idx, n)
 		case "hover":
 			hoverSweep(idx, n)
+		case "notifications":
+			notificationSweep(idx, n)
 		case "commands":
 			commandSweep()
 		}
@@ -673,11 +738,12 @@ func main() {
 	}
 	r.Spawn(16, "routing", 0)
 	r.Spawn(16, "hover", 0)
+	r.Spawn(16, "notifications", 0)
 	r.Spawn(1, "commands", 0)
-	n := r.Get("routing_cases") + r.Get("hover_cases") + r.Get("command_cases")
+	n := r.Get("routing_cases") + r.Get("hover_cases") + r.Get("command_cases") + r.Get("notification_cases")
 	r.Finish(explore.Coverage{
 		States: -1, Transitions: n, Traces: n, Evaluations: n,
-		Rule:       "8 widget trees (1-4 nodes, depth <= 3, disjoint and overlapping siblings with both z orders) on a 6x3 screen with a 5x3 root; routing: every capturer mask x every focus position x every assignment of a consuming phase to at most two nodes x {key (injected as terminal input), custom event}, and a press at every screen cell, each compared with a reference router (capture root-down, target, bubble up, stop at the first consumer; the target's own capture handler left open); hover: every sequence of <= n steps over {pointer motion at 6 points incl. outside the root, terminal focus out/in, frame} followed by a focus-out: per widget enter/leave must alternate starting with enter and end closed; focus: every (old, new) pair gets exactly one focus-out and one focus-in; commands: Redraw, Refresh, Quit, batches, nested batches each take effect exactly once. All through the real App.Run on a fake console, stepped with virtual frame ticks. distinct = cases that passed",
+		Rule:       "8 widget trees (1-4 nodes, depth <= 3, disjoint and overlapping siblings with both z orders) on a 6x3 screen with a 5x3 root; routing: every capturer mask x every focus position x every assignment of a consuming phase to at most two nodes x {key (injected as terminal input), custom event}, and a press at every screen cell, each compared with a reference router (capture root-down, target, bubble up, stop at the first consumer; the target's own capture handler left open); hover: every sequence of <= n steps over {pointer motion at 6 points incl. outside the root, terminal focus out/in, frame} followed by a focus-out: per widget enter/leave must alternate starting with enter and end closed; notifications: with every widget consuming MouseEnter/MouseLeave/FocusIn/FocusOut (delivered outside the three phases), after each of 6 notification-raising steps the next key (arriving in the same read) is routed in full, for every capturer mask and focus position; focus: every (old, new) pair gets exactly one focus-out and one focus-in; commands: Redraw, Refresh, Quit, batches, nested batches each take effect exactly once. All through the real App.Run on a fake console, stepped with virtual frame ticks. distinct = cases that passed",
 		Exhaustive: true,
 		Bounds:     map[string]any{"hover_sequence_len": r.Pick(3, 4)},
 		Assumptions: []string{"whether the focused/target widget's own CaptureEvent runs is not fixed by the property and is accepted either way",
